@@ -129,8 +129,27 @@ def gen_mono(ctx, rng, idx, quick):
     else:  # scaled: coefficient magnitudes spread over 2^-60 .. 2^60
         cs = [(dy(rng, rng.choice([8, 24, 53]), rng.randint(-60, 60)), Fr(0)) for _ in range(n + 1)]
     cs = list(cs)
+    # zero real part (purely imaginary), zero imaginary part, both zero: every setter has its own zero test
+    if cls in ("int", "cplxint", "dyadic", "rational", "sparse") and n >= 2:
+        unit = {"int": Fr(1), "cplxint": Fr(1), "sparse": Fr(1), "dyadic": Fr(1, 8), "rational": Fr(1, 3)}[cls]
+        for j in range(1, n):
+            z = rng.random()
+            if z < 0.2:
+                im = cs[j][1] if cs[j][1] != 0 else unit * rng.choice([-3, -1, 1, 2, 5])
+                cs[j] = (Fr(0), im)
+            elif z < 0.3 and cls != "sparse":
+                cs[j] = (cs[j][0] if cs[j][0] != 0 else unit, Fr(0))
+            elif z < 0.36:
+                cs[j] = (Fr(0), Fr(0))
     if cs[0] == (0, 0): cs[0] = (Fr(1), Fr(0))       # no zero roots: set_input_poly would deflate
     if cs[n] == (0, 0): cs[n] = (Fr(1), Fr(0))
+    # public coefficient setter
+    flat = [v for c in cs for v in c]
+    setters = ["q", "s"]
+    if all(v.denominator == 1 and abs(v) < 2 ** 62 for v in flat): setters.append("i")
+    if all(is_double(v) for v in flat): setters += ["d", "f"]
+    setter = setters[(idx // 8 + rng.randint(0, 1)) % len(setters)]
+    fprec = rng.choice([64, 128, 192]) if setter == "f" else 0
     # points
     pts = []
     pts.append((dy(rng, 53, -2), dy(rng, 53, -2)))                     # inside
@@ -159,7 +178,27 @@ def gen_mono(ctx, rng, idx, quick):
     # a point with a long mantissa at low degree
     if n <= 8:
         evals.append(("M", 256, dy(rng, 200, 0), dy(rng, 200, 0)))
-    return {"kind": "M", "cls": cls, "n": n, "coeffs": cs, "evals": evals}
+    if cls == "rational":
+        # freshly built polynomial, multiprecision evaluation at increasing precisions without any explicit
+        # precision raise in between: the coefficients must be regenerated from their rationals
+        evals = [("M", wp, pts[0][0], pts[0][1]) for wp in (256, 1024)] + evals
+    return {"kind": "M", "cls": cls, "n": n, "coeffs": cs, "evals": evals, "setter": setter, "fprec": fprec}
+
+def fixed_monos():
+    """small fixed inputs through EVERY public setter: real, complex, purely imaginary and zero coefficients"""
+    polys = [[(Fr(-2), Fr(0)), (Fr(0), Fr(0)), (Fr(0), Fr(3)), (Fr(0), Fr(0)), (Fr(1), Fr(0))],        # x^4 + 3i x^2 - 2
+             [(Fr(1), Fr(-1)), (Fr(0), Fr(2)), (Fr(5), Fr(0)), (Fr(0), Fr(-7)), (Fr(0), Fr(0)), (Fr(0), Fr(1))],
+             [(Fr(0), Fr(4)), (Fr(-3), Fr(0)), (Fr(0), Fr(-1)), (Fr(2), Fr(6))]]
+    pts = [(Fr(1, 2), Fr(1, 2)), (Fr(5, 4), Fr(-3, 8)), (Fr(-3), Fr(0)), (Fr(0), Fr(7, 8))]
+    out = []
+    for pi, cs in enumerate(polys):
+        for setter in "qidfs":
+            evals = []
+            for (xr, xi) in pts:
+                evals += [("F", xr, xi), ("D", xr, xi, 0), ("X", 128, xr, xi)]
+            out.append({"kind": "M", "cls": "fixed%d" % pi, "n": len(cs) - 1, "coeffs": list(cs), "evals": evals,
+                        "setter": setter, "fprec": 128 if setter == "f" else 0})
+    return out
 
 def gen_cheb(ctx, rng, idx, quick):
     n = rng.choice([1, 2, 3, 5, 8, 13, 20, 30, 45, 60]) if rng.random() < 0.6 else rng.randint(1, 60)
@@ -179,6 +218,8 @@ def gen_cheb(ctx, rng, idx, quick):
     for (xr, xi) in pts:
         evals.append(("M", rng.choice(precs), xr, xi))
         if rng.random() < 0.4: evals.append(("M", 64, xr, xi))
+    if cls == "rational":
+        evals = [("M", wp, pts[-2][0], pts[-2][1]) for wp in (256, 1024)] + evals
     return {"kind": "C", "cls": cls, "n": n, "coeffs": cs, "evals": evals}
 
 def ulp_step(x, k):
@@ -241,7 +282,30 @@ def gen_sec_root(ctx, rng, idx):
         evals.append(("M", 64, xs[0] + Fr(1, 2 ** j), xs[1]))
     return {"kind": "S", "cls": "nearroot", "n": n, "ab": ab, "evals": evals}
 
+def gen_sec_rational(ctx, rng, idx):
+    """non-dyadic rational a_i, b_i (1/3, 2/7, 1/10 ...): every arithmetic works on ROUNDED coefficients, so
+    the multiprecision evaluator has to regenerate them from the rationals when the point has more precision
+    than the stored copies.  The rounding of b_i is a data error of relative size 2u|b_i|/|x-b_i| on its term:
+    only points with |x - b_i| >= |b_i|/2 for every i are used, where it is far below the bound."""
+    n = rng.choice([1, 2, 3, 5, 8, 12])
+    cplx = rng.random() < 0.5
+    dens = [3, 7, 10, 9, 6, 11]
+    bs = set()
+    while len(bs) < n:
+        bs.add((Fr(rng.randint(-50, 50), rng.choice(dens)), Fr(rng.randint(-50, 50), rng.choice(dens)) if cplx else Fr(0)))
+    bs = sorted(bs); rng.shuffle(bs)
+    ab = [((Fr(rng.randint(1, 20) * rng.choice([-1, 1]), rng.choice(dens)), Fr(rng.randint(-20, 20), rng.choice(dens)) if cplx else Fr(0)), b) for b in bs]
+    cand = [(dy(rng, 53, 6), dy(rng, 53, 5)), (dy(rng, 53, 8), Fr(0)), (dy(rng, 30, 2), dy(rng, 30, 2)), (dy(rng, 53, -3), dy(rng, 53, -3)),
+            (dy(rng, 53, 3), dy(rng, 53, 4)), (Fr(1, 3).limit_denominator(1) + dy(rng, 20, 1), Fr(0))]
+    pts = [x for x in cand if all(4 * abs2(x[0] - b[0], x[1] - b[1]) >= abs2(b[0], b[1]) and (x[0], x[1]) != b for (_, b) in ab)]
+    if not pts: pts = [(Fr(1000), Fr(1))]
+    evals = [("M", wp, pts[0][0], pts[0][1]) for wp in (256, 1024)]       # right after construction
+    for (xr, xi) in pts:
+        evals += [("F", xr, xi), ("D", xr, xi, 0), ("M", rng.choice([64, 128, 512, 2048]), xr, xi)]
+    return {"kind": "S", "cls": "rational", "n": n, "ab": ab, "evals": evals}
+
 def gen_sec(ctx, rng, idx, quick):
+    if idx % 6 == 5: return gen_sec_rational(ctx, rng, idx)
     if idx % 5 == 3: return gen_sec_cancel(ctx, rng, idx)
     if idx % 5 == 4: return gen_sec_root(ctx, rng, idx)
     n = rng.choice([1, 2, 3, 5, 8, 13, 20, 30, 40]) if rng.random() < 0.6 else rng.randint(1, 40)
@@ -276,10 +340,33 @@ def gen_sec(ctx, rng, idx, quick):
     return {"kind": "S", "cls": cls, "n": n, "ab": ab, "evals": evals}
 
 # ----------------------------------------------------------------------------- protocol text
+def dec_string(q, style):
+    """decimal string for mps_monomial_poly_set_coefficient_s: 'n/d', or a finite decimal when there is one"""
+    q = Fr(q)
+    if q.denominator == 1: return str(q.numerator)
+    d = q.denominator
+    if style:   # finite decimal expansion iff d = 2^a 5^b
+        dd = d
+        while dd % 2 == 0: dd //= 2
+        while dd % 5 == 0: dd //= 5
+        if dd == 1 and d.bit_length() < 60:
+            k = 0
+            while (q * 10 ** k).denominator != 1: k += 1
+            m = int(q * 10 ** k); sgn = "-" if m < 0 else ""; m = abs(m)
+            digits = str(m).rjust(k + 1, "0")
+            return sgn + digits[:-k] + "." + digits[-k:]
+    return "%d/%d" % (q.numerator, q.denominator)
+
 def pline(case, cmd="P"):
     if case["kind"] in "MC":
-        body = " ".join(qhex(r) + " " + qhex(i) for (r, i) in case["coeffs"])
-        return "%s %s %d %s" % (cmd, case["kind"], case["n"], body)
+        setter = case.get("setter", "q") if case["kind"] == "M" else "q"
+        if setter == "s":
+            body = " ".join(dec_string(r, j % 2) + " " + dec_string(i, (j + 1) % 2) for j, (r, i) in enumerate(case["coeffs"]))
+        else:
+            body = " ".join(qhex(r) + " " + qhex(i) for (r, i) in case["coeffs"])
+        kind = case["kind"] + ("" if setter == "q" else setter)
+        extra = (" %d" % case["fprec"]) if setter == "f" else ""
+        return "%s %s %d%s %s" % (cmd, kind, case["n"], extra, body)
     body = " ".join("%s %s %s %s" % (qhex(a[0]), qhex(a[1]), qhex(b[0]), qhex(b[1])) for (a, b) in case["ab"])
     return "%s S %d %s" % (cmd, case["n"], body)
 
@@ -304,6 +391,9 @@ def mline(case, ev):
 
 def case_to_json(case, ev):
     c = {"kind": case["kind"], "cls": case["cls"], "n": case["n"], "pline": pline(case), "eline": eline(ev), "mline": mline(case, ev)}
+    if case["kind"] == "M":
+        c["setter"] = case.get("setter", "q"); c["fprec"] = case.get("fprec", 0)
+        c["coeffs_q"] = [[str(r), str(i)] for (r, i) in case["coeffs"]]
     return c
 
 # ----------------------------------------------------------------------------- judging
@@ -370,6 +460,7 @@ class Judge:
         self.evals += 1
         if e2 != 0: self.nontrivial += 1
         self.h("%s/%s" % (kind, arith)); self.h("cls:%s/%s" % (kind, case["cls"]))
+        if kind == "M": self.h("setter:_%s" % {"q": "q", "i": "int", "d": "d", "f": "f", "s": "s"}[case.get("setter", "q")])
         self.h("deg<=%d" % (5 if n <= 5 else 20 if n <= 20 else 60))
         if arith == "M": self.h("prec:%d" % wp)
         self.ratio(self.max_ratio, "%s/%s" % (kind, arith), e2, B)
@@ -531,9 +622,11 @@ def replay(ctx, harness, obj):
         return
     # rebuild a one-evaluation case from the stored protocol lines
     pl = obj["pline"].split(); el = obj["eline"].split()
-    kind = pl[1]; n = int(pl[2]); vals = [parse_qhex(x) for x in pl[3:]]
+    kind = pl[1][0]; n = int(pl[2]); vals = [] if "coeffs_q" in obj else [parse_qhex(x) for x in pl[3:]]
     case = {"kind": kind, "n": n, "cls": obj.get("cls", "replay")}
-    if kind in "MC": case["coeffs"] = [(vals[2 * j], vals[2 * j + 1]) for j in range(n + 1)]
+    if "coeffs_q" in obj:
+        case["coeffs"] = [(Fr(a), Fr(b)) for a, b in obj["coeffs_q"]]; case["setter"] = obj.get("setter", "q"); case["fprec"] = obj.get("fprec", 0)
+    elif kind in "MC": case["coeffs"] = [(vals[2 * j], vals[2 * j + 1]) for j in range(n + 1)]
     else: case["ab"] = [((vals[4 * j], vals[4 * j + 1]), (vals[4 * j + 2], vals[4 * j + 3])) for j in range(n)]
     if el[0] == "F": ev = ("F", parse_qhex(el[1]), parse_qhex(el[2]))
     elif el[0] == "D": ev = ("D", parse_qhex(el[1]), parse_qhex(el[2]), int(el[3]))
@@ -553,7 +646,7 @@ def run(ctx):
         return ctx.finish("proof", {"evaluations": judge.evals, "replay": ctx.replay})
     quick = ctx.quick()
     nm, nc, ns = ctx.pick((40, 12, 20), (640, 200, 300))
-    cases = [gen_mono(ctx, rng, i, quick) for i in range(nm)]
+    cases = fixed_monos() + [gen_mono(ctx, rng, i, quick) for i in range(nm)]
     cases += [gen_cheb(ctx, rng, i, quick) for i in range(nc)]
     cases += [gen_sec(ctx, rng, i, quick) for i in range(ns)]
     ctx.log("generated %d inputs, %d evaluations" % (len(cases), sum(len(c["evals"]) for c in cases)))
